@@ -1406,4 +1406,120 @@ theorem C14_wea_duplicate_metadata_separate {h h1 h2 : Heap} {live : List Nat} {
   ⟨fun e2 => C14_fresh_comp_metadata_edit inv (weaDup_fresh inv.1 e1) e2,
    fun e2 => C14_source_metadata_edit_after_fresh inv hw (weaDup_fresh inv.1 e1) e2⟩
 
+/-! ### Round 6: operations DEFINED THROUGH the modelled ones (reflected operators, folds such as `sum`)
+
+Class of change: "a newly added public operation of an anchored class that derives an object, written with a
+stock idiom whose degenerate case (`0 + c`, `sum([c])`, an identity operand) hands back the operand".  The
+specification of such an operation is its definition through the operations the model has: number + collection
+is collection + number FOR EVERY NUMBER, `sum` is the left fold that starts with `0 + c₀`.  With that
+definition the degenerate cases are new objects like all others. -/
+
+/-- `q + c` (reflected addition): `c + q`, for every number `q` – zero included. -/
+def radd (m : Mode) (h : Heap) (c : Nat) (q : Rat) : Except Err (Heap × Nat) :=
+  derive m h c (.arith .add (.scalar q))
+
+/-- One step of the built-in `sum`: `acc + x`. -/
+def sumStep (m : Mode) (p : Heap × Nat) (x : Nat) : Except Err (Heap × Nat) :=
+  derive m p.1 p.2 (.arith .add (.coll x))
+
+/-- The built-in `sum` over a list of collections: `((0 + c₀) + c₁) + …`; `sum([])` is the number 0 (no
+    collection comes back: an error of this model). -/
+def sumColl (m : Mode) (h : Heap) : List Nat → Except Err (Heap × Nat)
+  | [] => .error .value
+  | c :: rest => do
+    let p ← radd m h c 0
+    rest.foldlM (sumStep m) p
+
+/-- **Arithmetic with an identity operand allocates like any other**: for every operator and EVERY number
+    `q` – `c + 0`, `c - 0`, `c * 1`, `c / 1`, `0 + c` included – the result is an object that did not exist
+    (not `c`, no live object) and every live object reads as before. -/
+theorem C14_identity_operand_new_object {m : Mode} {h h' : Heap} {live : List Nat} {c r : Nat} {bop : BinOp}
+    {q : Rat} (inv : Inv anyFP h live) (e : derive m h c (.arith bop (.scalar q)) = .ok (h', r)) :
+    r ≠ c ∧ (∀ b ∈ live, r ≠ b) ∧ ∀ b ∈ live, obsA h' b = obsA h b :=
+  ⟨(C14_derive_new_object inv e).1, (C14_derive_new_object inv e).2, C14_args_unchanged_derive inv e⟩
+
+/-- … and it is separated from its operand: any in-place change of the result of `c ∘ q` (unit conversion,
+    value / item assignment, metadata edits, culling) leaves the operand – and every other live object – as it
+    was before the arithmetic; an in-place change of the operand leaves the result as it was made. -/
+theorem C14_identity_operand_then_edit {h h1 h2 : Heap} {live : List Nat} {c r : Nat} {bop : BinOp} {q : Rat}
+    {mop : MOp} (inv : Inv anyFP h live) (e : derive .fixed h c (.arith bop (.scalar q)) = .ok (h1, r)) :
+    (mutate .fixed h1 r mop = .ok h2 → ∀ b ∈ live, obsA h2 b = obsA h b) ∧
+    (c ∈ live → mutate .fixed h1 c mop = .ok h2 → obsA h2 r = obsA h1 r) := by
+  obtain ⟨inv1, hge⟩ := C14_sep_preserved_derive inv e
+  have hne : ∀ b ∈ live, b ≠ r := fun b hb => Nat.ne_of_lt (Nat.lt_of_lt_of_le (live_lt inv b hb) hge)
+  refine ⟨fun e2 b hb => ?_, fun hc e2 => ?_⟩
+  · rw [C14_frame inv1 (by simp) (by simp [hb]) (hne b hb) e2]
+    exact C14_args_unchanged_derive inv e b hb
+  · exact C14_frame inv1 (by simp [hc]) (by simp) (fun h' => hne c hc h'.symm) e2
+
+/-- The reflected addition is the addition: `0 + c` is a new object and leaves every live object as it was. -/
+theorem C14_radd_zero_new_object {m : Mode} {h h' : Heap} {live : List Nat} {c r : Nat}
+    (inv : Inv anyFP h live) (e : radd m h c 0 = .ok (h', r)) :
+    r ≠ c ∧ (∀ b ∈ live, r ≠ b) ∧ ∀ b ∈ live, obsA h' b = obsA h b :=
+  C14_identity_operand_new_object inv e
+
+/-- The fold of `sum` only ever answers with objects that were not live when it started. -/
+theorem sum_fold_new (rest : List Nat) : ∀ (h1 h' : Heap) (live' live : List Nat) (r r' : Nat),
+    Inv anyFP h1 live' → (∀ b ∈ live, b ∈ live') → (∀ b ∈ live, r ≠ b) →
+    rest.foldlM (sumStep .fixed) (h1, r) = .ok (h', r') → ∀ b ∈ live, r' ≠ b := by
+  induction rest with
+  | nil =>
+    intro h1 h' live' live r r' _ _ hr e
+    have : (h1, r) = (h', r') := Except.ok.inj e
+    cases this
+    exact hr
+  | cons x xs ih =>
+    intro h1 h' live' live r r' inv sub _ e
+    rw [List.foldlM_cons] at e
+    cases hs : sumStep .fixed (h1, r) x with
+    | error er => rw [hs] at e; cases e
+    | ok p =>
+      obtain ⟨h2, r2⟩ := p
+      rw [hs] at e
+      have hd : derive .fixed h1 r (.arith .add (.coll x)) = .ok (h2, r2) := hs
+      have inv2 := (C14_sep_preserved_derive inv hd).1
+      have hnew := (C14_derive_new_object inv hd).2
+      exact ih h2 h' (live' ++ [r2]) live r2 r' inv2
+        (fun b hb => by simp [sub b hb]) (fun b hb => hnew b (sub b hb)) e
+
+/-- **`sum` over one, two or more collections answers with a new object** – in particular `sum([c])` is not
+    `c` – and (one collection) leaves every live object as it was. -/
+theorem C14_sum_new_object {h h' : Heap} {live : List Nat} {cs : List Nat} {r : Nat}
+    (inv : Inv anyFP h live) (e : sumColl .fixed h cs = .ok (h', r)) : ∀ b ∈ live, r ≠ b := by
+  cases cs with
+  | nil => cases e
+  | cons c rest =>
+    simp only [sumColl, bind, Except.bind] at e
+    cases hs : radd .fixed h c 0 with
+    | error er => rw [hs] at e; cases e
+    | ok p =>
+      obtain ⟨h1, r1⟩ := p
+      rw [hs] at e
+      have inv1 := (C14_sep_preserved_derive inv hs).1
+      exact sum_fold_new rest h1 h' (live ++ [r1]) live r1 r inv1 (fun b hb => by simp [hb])
+        (C14_derive_new_object inv hs).2 e
+
+theorem C14_sum_single_new_object {h h' : Heap} {live : List Nat} {c r : Nat}
+    (inv : Inv anyFP h live) (hc : c ∈ live) (e : sumColl .fixed h [c] = .ok (h', r)) :
+    r ≠ c ∧ ∀ b ∈ live, obsA h' b = obsA h b := by
+  refine ⟨C14_sum_new_object inv e c hc, ?_⟩
+  simp only [sumColl, bind, Except.bind] at e
+  cases hs : radd .fixed h c 0 with
+  | error er => rw [hs] at e; cases e
+  | ok p =>
+    rw [hs] at e
+    have : p = (h', r) := Except.ok.inj e
+    subst this
+    exact C14_args_unchanged_derive inv hs
+
+/-- Non-vacuity: `sum([c])` of a mutable daily collection succeeds and answers with object 1 (the source is
+    object 0); `sum([c, c])` answers with object 2. -/
+example :
+    ((sumColl .fixed (build Heap.empty .daily true false 0 0 [1, 1, 0, 1, 2, 23, 1, 0] [] [1, 2] [5, 6]).1
+        [(build Heap.empty .daily true false 0 0 [1, 1, 0, 1, 2, 23, 1, 0] [] [1, 2] [5, 6]).2]).toOption.map
+      (·.2) ≠ some (build Heap.empty .daily true false 0 0 [1, 1, 0, 1, 2, 23, 1, 0] [] [1, 2] [5, 6]).2) ∧
+    ((sumColl .fixed (build Heap.empty .daily true false 0 0 [1, 1, 0, 1, 2, 23, 1, 0] [] [1, 2] [5, 6]).1
+        [(build Heap.empty .daily true false 0 0 [1, 1, 0, 1, 2, 23, 1, 0] [] [1, 2] [5, 6]).2]).toOption.isSome
+      = true) := by decide +kernel
+
 end LbHeap
